@@ -3239,6 +3239,10 @@ RUN_RES = ['RES', 'WRES', 'CWRES']
 RUN_DERIV = {'G11': 'ETA_1', 'G21': 'ETA_2', 'H11': 'EPS_1'}
 RUN_COLS = ['ID', 'TIME', 'WGT', 'DV', 'PRED', 'CIPREDI', 'CPRED', 'IPRED', 'RES', 'WRES', 'CWRES', 'G11', 'G21', 'H11']
 RUN_APPENDED = ['DV', 'PRED', 'RES', 'WRES']
+# column lists that name items of the appended block themselves (DV / PRED / RES / WRES first, in the middle, last)
+RUNTAB_BODIES_APP = [['DV'], ['DV', 'IPRED'], ['IPRED', 'DV'], ['DV', 'CWRES'], ['DV', 'PRED', 'IPRED'],
+                     ['PRED', 'DV', 'CIPREDI'], ['WGT', 'DV', 'G11'], ['DV', 'WRES', 'CPRED'], ['WRES'],
+                     ['WRES', 'IPRED'], ['RES', 'DV', 'WRES', 'CWRES'], ['DV', 'H11', 'G21']]
 
 
 def _run_write_data(d, no_obs=()):
@@ -3375,13 +3379,11 @@ def _runtab_inputs(tier):
         return out
 
     full = options(prefixes, bodies)
-    if thorough:
-        first = options([[], ['ID', 'TIME']], bodies)
-    else:
-        first = [dict(cols=c, noappend=na) for c, na in (
-            (['IPRED'], False), (['WGT', 'CWRES'], True), (['ID', 'TIME'], False), (['ID', 'TIME'], True),
-            (['ID', 'TIME', 'IPRED'], False), (['ID', 'TIME', 'IPRED'], True), (['ID', 'TIME', 'PRED', 'IPRED'], False),
-            (['ID', 'TIME', 'WGT', 'CWRES'], True))]
+    first_quick = [dict(cols=c, noappend=na) for c, na in (
+        (['IPRED'], False), (['WGT', 'CWRES'], True), (['ID', 'TIME'], False), (['ID', 'TIME'], True),
+        (['ID', 'TIME', 'IPRED'], False), (['ID', 'TIME', 'IPRED'], True), (['ID', 'TIME', 'PRED', 'IPRED'], False),
+        (['ID', 'TIME', 'WGT', 'CWRES'], True))]
+    first = options([[], ['ID', 'TIME']], bodies) if thorough else first_quick
     dom = [dict(tables=[t], nrow=4) for t in full]
     dom += [dict(tables=[a, b], nrow=4) for a in first for b in full]
     t1 = options([['ID', 'TIME']], [[], ['IPRED']])[:3]
@@ -3390,6 +3392,22 @@ def _runtab_inputs(tier):
     if not thorough:
         t3 = [t for t in t3 if t['noappend']]
     dom += [dict(tables=[a, b, c], nrow=3) for a in t1 for b in t2 for c in t3]
+    # appended: tables that list items of the appended block (DV PRED RES WRES) themselves, at every position of
+    # the list.  Without NOAPPEND an explicitly listed DV stays where it is listed (and DV is written a second time
+    # in the appended block), explicitly listed PRED RES WRES are only written in the appended block.
+    full2 = options(prefixes, RUNTAB_BODIES_APP)
+    dom += [dict(tables=[t], nrow=4) for t in full2]
+    if thorough:
+        first2 = options([[], ['ID', 'TIME']], RUNTAB_BODIES_APP)
+        dom += [dict(tables=[a, b], nrow=4) for a in first2 for b in full2]
+        dom += [dict(tables=[a, b], nrow=4) for a in first_quick for b in full2]
+    else:
+        first2 = [dict(cols=c, noappend=na) for c, na in (
+            (['ID', 'TIME', 'DV', 'IPRED'], False), (['DV', 'WRES', 'CPRED'], False), (['ID', 'DV', 'CWRES'], True))]
+        second2 = options([[], ['ID', 'TIME']], RUNTAB_BODIES_APP)
+        dom += [dict(tables=[a, b], nrow=4) for a in first2 for b in second2]
+        second = [t for t in options([['ID', 'TIME']], bodies) if not t['noappend']]
+        dom += [dict(tables=[a, b], nrow=4) for a in first2[:2] for b in second]
     return dom
 
 
